@@ -56,7 +56,7 @@ func tumbleScenario(r *Run) {
 		}
 		return []octosql.Value{intv(i), octosql.NewTime(msTime(ms)), octosql.NewTime(msTime(ms).Add(uShift)), intv(t.Draw(3))}
 	}
-	script := GenChangelog(t.Block(8*maxSteps+10), ChangelogCfg{MaxSteps: maxSteps, Watermarked: true, Retractions: true, Dups: true,
+	script := GenChangelog(t.Block(stepBlock*maxSteps+10), ChangelogCfg{MaxSteps: maxSteps, Watermarked: true, Retractions: true, Dups: true,
 		Row: row, FinalWM: true, RetractSameTime: true})
 	args := fmt.Sprintf("window_length=>INTERVAL %d MILLISECONDS", lengthMs)
 	if timeField != "" {
@@ -185,7 +185,7 @@ func tumbleScenario(r *Run) {
 // range is the source of other runs, and reported as a by-product.
 func rangeScenario(r *Run) {
 	t := r.Tape
-	hdr := t.Block(4)
+	hdr := t.Block(12)
 	start := int64(hdr.Draw(9)) - 4
 	end := start + int64(hdr.Draw(12)) - 2
 	limit := -1
